@@ -1,7 +1,7 @@
 (* C18Theorems.v — the property theorems of C18 and nothing else.  Each is closed by
    `exact <lemma>` and followed by Print Assumptions (audited by ./check on every run). *)
 From V.lib Require Import Base.
-From V.c18 Require Import C18Model C18BitsProofs C18AscProofs C18AdtsProofs.
+From V.c18 Require Import C18Model C18BitsProofs C18AscProofs C18AdtsProofs C18EntryModel C18EntryProofs.
 
 (* DecodeAudioSpecificConfig inverts Encode on the whole supported domain: object types 2/5/29,
    all 16 channel configurations, every sampling / extension frequency in 0 .. 2^24-1 (the 13 table
@@ -110,3 +110,44 @@ Theorem C18_adts_frequency_refuted :
   exists f h, new_adts f 2 AAClc 0 = Ok h /\ Z.of_N (adts_frequency h) <> f.
 Proof. exact adts_frequency_refuted. Qed.
 Print Assumptions C18_adts_frequency_refuted.
+
+(* ------------------------------------------------------------------ AAC sample entry *)
+(* the mp4a entry CreateAudioSampleEntryBox/CreateEsdsBox build around ANY decoder configuration of
+   up to 100 bytes decodes (DecodeBox -> DecodeAudioSampleEntry -> DecodeEsds -> DecodeESDescriptor ->
+   DecoderConfigDescriptor -> DecSpecificInfo) to the same fields and the same DecConfig bytes *)
+Theorem C18_entry_roundtrip :
+  forall (cc ss rate : N) (dc : list N),
+    cc < 65536 -> ss < 65536 -> rate < 65536 -> lenN dc <= 100 ->
+    decode_entry (mp4a_box cc ss rate dc) = EOk (mkEntry 1 cc ss rate dc).
+Proof. exact entry_roundtrip. Qed.
+Print Assumptions C18_entry_roundtrip.
+
+(* SetAACDescriptor(ot, f) -> encoded entry -> decoded entry -> DecodeAudioSpecificConfig returns the
+   configuration that was built, for object types 2/5/29 and every frequency whose (doubled, for the
+   HE types) value fits the 24-bit escape; the entry's rate field holds uint16(f) *)
+Theorem C18_sample_entry :
+  forall (ot : N) (f : Z),
+    entry_freq_ok ot f = true ->
+    exists bs dc,
+      set_aac_descriptor ot f = Ok bs
+      /\ decode_entry bs = EOk (mkEntry 1 (a_chan (set_aac_asc ot f)) 16 (uint16_of_int f) dc)
+      /\ entry_asc bs = EOk (set_aac_asc ot f).
+Proof. exact sample_entry. Qed.
+Print Assumptions C18_sample_entry.
+
+Example C18_sample_entry_sat : entry_freq_ok HEAACv1 24000%Z = true /\ entry_freq_ok AAClc 96000%Z = true.
+Proof. split; reflexivity. Qed.
+
+(* the entry's 16.16 sample-rate field: exact under the guard f < 65536 ... *)
+Theorem C18_entry_rate_exact :
+  forall f : Z, (0 <= f < 65536)%Z -> Z.of_N (uint16_of_int f) = f.
+Proof. exact entry_rate_exact. Qed.
+Print Assumptions C18_entry_rate_exact.
+
+(* ... refuted without it for a table frequency (88200 -> 22664; known finding C18-F1, replayed on the
+   real code by the search) *)
+Theorem C18_entry_rate_refuted :
+  exists f bs e, In f table_freqs /\ set_aac_descriptor AAClc f = Ok bs /\ decode_entry bs = EOk e
+                 /\ Z.of_N (e_rate e) <> f.
+Proof. exact entry_rate_refuted. Qed.
+Print Assumptions C18_entry_rate_refuted.
